@@ -18,6 +18,9 @@ SOURCES = [
     ('bugfix/no-ticket-here', None, None),
     ('improvement/whatever', None, None),
     ('bugfix/OTHER-5', 'OTHER-5', 'OTHER'),
+    ('bugfix/EST-7', 'EST-7', 'EST'),        # substring of a configured key
+    ('bugfix/T-3', 'T-3', 'T'),
+    ('bugfix/ZENKO-8', 'ZENKO-8', 'ZENKO'),  # second configured key
     ('bugfix/TEST-404', 'TEST-404', 'TEST'),
     ('dependabot/pip/x-1.2', None, None),
 ]
@@ -143,7 +146,8 @@ def enum_part(p, part, nparts, tier):
                     continue
                 gwf.setup({'bypass_jira_check': True}
                           if cfg['bypass'] == 'cmdline' else {})
-                jira_keys = [] if cfg['configured'] == 'no_keys' else ['TEST']
+                jira_keys = [] if cfg['configured'] == 'no_keys' else [
+                    'TEST', 'ZENKO']
                 base = SettingsDict({
                     'robot': 'robot', 'jira_keys': jira_keys,
                     'jira_email': '' if cfg['configured'] == 'no_email'
